@@ -177,31 +177,96 @@ def rule_R4(text, args, fired):
     if n: fired.append('R4x%d' % n)
     return text
 
-def rule_R5(text, args, fired):
-    """`let P = CALL(..)?;` (anchor = start text of CALL) -> explicit match with From::from."""
-    for anchor in args:
-        toks = _tok_code(text)
-        atoks = [t.text for t in _tok_code(anchor)]
-        hits = []
-        for i in range(len(toks) - len(atoks) + 1):
-            if [t.text for t in toks[i:i+len(atoks)]] == atoks:
-                hits.append(i)
-        if len(hits) != 1:
-            raise ExtractError('R5 anchor %r matched %d times' % (anchor, len(hits)))
-        i = hits[0]
-        # expression runs to the '?' that follows a balanced postfix chain
-        j = i
-        while j < len(toks):
-            if toks[j].text in OPEN: j = match_close(toks, j) + 1; continue
-            if toks[j].text == '?': break
-            if toks[j].text in (';', ',') or toks[j].text in CLOSE:
-                raise ExtractError('R5 anchor %r: no `?` found' % anchor)
-            j += 1
-        s, e = toks[i].start, toks[j].end
-        expr = text[s:toks[j].start]
-        rep = 'match %s { Ok(v_ok) => v_ok, Err(v_err) => return Err(From::from(v_err)) }' % expr
-        text = text[:s] + rep + text[e:]
-        fired.append('R5:' + anchor)
+def rule_R5(text, args, fired, identity=False):
+    """`CALL(..)?` (anchor = start text of CALL) -> explicit match: the language-defined desugaring of `?`.
+    R5 : error types differ  -> Err(e) => return Err(From::from(e))
+    R5i: error types equal   -> Err(e) => return Err(e)     (From<T> for T is the identity)
+    optional second argument: ghost text placed in the Err arm before the return."""
+    anchor = args[0]
+    ghost = args[1] if len(args) > 1 else ''
+    toks = _tok_code(text)
+    atoks = [t.text for t in _tok_code(anchor)]
+    hits = []
+    for i in range(len(toks) - len(atoks) + 1):
+        if [t.text for t in toks[i:i+len(atoks)]] == atoks:
+            hits.append(i)
+    if len(hits) != 1:
+        raise ExtractError('R5 anchor %r matched %d times' % (anchor, len(hits)))
+    i = hits[0]
+    j = i
+    while j < len(toks):
+        if toks[j].text in OPEN: j = match_close(toks, j) + 1; continue
+        if toks[j].text == '?': break
+        if toks[j].text in (';', ',') or toks[j].text in CLOSE:
+            raise ExtractError('R5 anchor %r: no `?` found' % anchor)
+        j += 1
+    if j >= len(toks):
+        raise ExtractError('R5 anchor %r: no `?` found' % anchor)
+    s, e = toks[i].start, toks[j].end
+    expr = text[s:toks[j].start]
+    conv = 'v_err' if identity else 'From::from(v_err)'
+    g = (' proof { %s } ' % ghost) if ghost else ' '
+    rep = 'match %s { Ok(v_ok) => v_ok, Err(v_err) => {%sreturn Err(%s) } }' % (expr, g, conv)
+    text = text[:s] + rep + text[e:]
+    fired.append(('R5i:' if identity else 'R5:') + anchor)
+    return text
+
+def rule_R5i(text, args, fired):
+    return rule_R5(text, args, fired, identity=True)
+
+def rule_R15(text, args, fired):
+    """let-introduction: `let P = CALL(..).rest;` -> `let NAME = CALL(..); let P = NAME.rest;`
+    args = [anchor (start text of CALL), NAME].  CALL(..) is the first thing evaluated in the
+    initialiser either way; its value is consumed by `.rest`, so nothing is dropped later than before."""
+    anchor, name = args[0], args[1]
+    toks = _tok_code(text)
+    atoks = [t.text for t in _tok_code(anchor)]
+    hits = [i for i in range(len(toks) - len(atoks) + 1) if [t.text for t in toks[i:i+len(atoks)]] == atoks]
+    if len(hits) != 1:
+        raise ExtractError('R15 anchor %r matched %d times' % (anchor, len(hits)))
+    i = hits[0]
+    if toks[i-1].text != '=':
+        raise ExtractError('R15 anchor %r is not the start of a let initialiser' % anchor)
+    # find the `let` that owns this '='
+    k = i - 1
+    while k >= 0 and toks[k].text != 'let':
+        if toks[k].text in (';', '{', '}'): raise ExtractError('R15: no let before %r' % anchor)
+        k -= 1
+    # end of CALL: skip path/idents then the argument list
+    j = i
+    while j < len(toks) and toks[j].text != '(':
+        j += 1
+    c = match_close(toks, j)
+    call = text[toks[i].start:toks[c].end]
+    text = text[:toks[k].start] + 'let %s = %s; ' % (name, call) + text[toks[k].start:toks[i].start] + name + text[toks[c].end:]
+    fired.append('R15:%s=%s' % (name, anchor))
+    return text
+
+def rule_A6(text, args, fired):
+    """annotation only: give a closure a Verus contract.
+    `|p| BODY` (anchor = closure text start) -> `|p| -> (r_c: T) ensures ENS { BODY }`; args = [anchor, T, ENS]"""
+    anchor, rty, ens = args
+    toks = _tok_code(text)
+    atoks = [t.text for t in _tok_code(anchor)]
+    hits = [i for i in range(len(toks) - len(atoks) + 1) if [t.text for t in toks[i:i+len(atoks)]] == atoks]
+    if len(hits) != 1:
+        raise ExtractError('A6 anchor %r matched %d times' % (anchor, len(hits)))
+    i = hits[0]
+    if toks[i].text != '|': raise ExtractError('A6 anchor must start at the closure bar')
+    j = i + 1
+    while toks[j].text != '|': j += 1
+    # enclosing call's '(' : scan left for unmatched '('
+    depth = 0; k = i - 1
+    while k >= 0:
+        if toks[k].text in CLOSE: depth += 1
+        elif toks[k].text in OPEN:
+            if depth == 0: break
+            depth -= 1
+        k -= 1
+    c = match_close(toks, k)
+    body = text[toks[j].end:toks[c].start]
+    text = text[:toks[j].end] + ' -> (r_c: %s) ensures %s { %s }' % (rty, ens, body.strip()) + text[toks[c].start:]
+    fired.append('A6:' + anchor)
     return text
 
 def rule_R6(text, args, fired):
@@ -320,7 +385,7 @@ def rule_txt(text, args, fired):
     return text
 
 AUTO_RULES = [('R13', rule_R13), ('R1', rule_R1), ('R2', rule_R2), ('R3', rule_R3), ('R6', rule_R6), ('R7', rule_R7), ('R12', rule_R12)]
-ARG_RULES = {'R4': rule_R4, 'R5': rule_R5, 'R10': rule_R10}
+ARG_RULES = {'R4': rule_R4, 'R5': rule_R5, 'R5i': rule_R5i, 'R10': rule_R10, 'R15': rule_R15, 'A6': rule_A6}
 
 # ---------------------------------------------------------------- function assembly
 
@@ -520,16 +585,26 @@ def build_unit(verif, repo, template_path, canary=False):
     out = []      # list of (text, tag, origin)
     def emit(text, tag, origin):
         out.append((text, tag, origin))
-    state = {'bodyprefix': None, 'mods': []}
+    state = {'bodyprefix': None, 'mods': [], 'defs': {}}
     def process(path, depth=0):
         if depth > 5: raise ExtractError('include depth')
         lines = open(path).read().split('\n')
         rel = os.path.relpath(path, verif)
+        def expand(ln):
+            if '$' in ln:
+                for k in sorted(state['defs'], key=len, reverse=True):
+                    ln = ln.replace('$' + k, state['defs'][k])
+            return ln
         i = 0
         impl_open = None
         while i < len(lines):
             ln = lines[i]
             s = ln.strip()
+            if s.startswith('//@ def '):
+                parts0 = s[len('//@ def '):].split(None, 1)
+                state['defs'][parts0[0]] = parts0[1] if len(parts0) > 1 else ''
+                i += 1; continue
+            ln = expand(ln); s = ln.strip()
             if not s.startswith('//@'):
                 mm = re.match(r'^(pub(\([a-z]+\))?\s+)?mod\s+(\w+)\s*\{\s*$', s)
                 if mm and depth == 0: state['mods'].append(mm.group(3))
@@ -604,6 +679,7 @@ def build_unit(verif, repo, template_path, canary=False):
                 i += 1
                 cur = None
                 while i < len(lines):
+                    lines[i] = expand(lines[i])
                     s2 = lines[i].strip()
                     if s2.startswith('//@'):
                         d2 = s2[3:].strip()
@@ -611,6 +687,10 @@ def build_unit(verif, repo, template_path, canary=False):
                         c2 = p2[0]
                         if c2 == 'endfn': i += 1; break
                         if c2.startswith('#'): i += 1; continue
+                        if c2 == 'def':
+                            parts0 = d2[len('def'):].strip().split(None, 1)
+                            state['defs'][parts0[0]] = parts0[1] if len(parts0) > 1 else ''
+                            i += 1; continue
                         if c2 == 'ret': fs.ret = p2[1]; cur = None
                         elif c2 == 'spec': cur = fs.spec
                         elif c2 == 'loop':
